@@ -2,9 +2,9 @@
 from props import countcheck as cc
 ORACLES = ['c07']
 def run(chk, ctx):
-    chk.cov['rule'] = ("tie-rich random elections x all rules x arithmetics x random tie orders; scope: actions, statuses and raw tallies; oracle: "
+    chk.cov['rule'] = ("tie-rich random elections (incl. a directed family where two candidates tie at stage 3+ after their order crossed, and sure-loser batches with pending surpluses) x all rules x arithmetics x random tie orders; scope: actions, statuses and raw tallies; oracle: "
                        "single exclusion is lowest (within surplus for Meek, lowest quotient for QPQ), batches are sure losers leaving enough "
                        "candidates, largest surplus first, every tie logged and resolved by tie order (Scottish: prior stage), and "
                        "tie-order independence when no tie is logged (the count is re-run under a permuted tie order)")
-    cc.run(chk, ctx, 'values', ORACLES + ['c07_independence'], 1000, 100000, families=['tie', 'tie', 'tie', 'small', 'nearquota', 'mid'])
+    cc.run(chk, ctx, 'values', ORACLES + ['c07_independence'], 1000, 100000, families=['tie', 'tie', 'tie', 'cross', 'coalition', 'small', 'nearquota', 'mid'])
 def replay(chk, payload): return cc.replay(chk, payload, ORACLES + ['c07_independence'])
